@@ -11,3 +11,7 @@ import Univers.Props.C04
 import Univers.Vers.SortThm
 import Univers.Vers.ValidateThm
 import Univers.Props.C07
+import Univers.Vers.Cuts
+import Univers.Vers.InvertThm
+import Univers.Vers.InvertWF
+import Univers.Props.C09
